@@ -176,7 +176,7 @@ impl Outcome {
 pub fn first_line(s: &str) -> String {
     let l = s.lines().next().unwrap_or("");
     if l.len() > 200 {
-        format!("{}…", &l[..200])
+        format!("{}…", crate::rng::cut(l, 200))
     } else {
         l.to_string()
     }
